@@ -82,6 +82,7 @@ type jwtObs struct {
 	Ctx       map[string]string // JSON encoding of ctx.Value(k) for probed k ("" = nil)
 	Callbacks int
 	NilErr    bool
+	Panic     *panicInfo // the middleware (or its construction) panicked
 }
 
 func b64u(b []byte) string { return base64.RawURLEncoding.EncodeToString(b) }
@@ -268,6 +269,7 @@ type jwtGate struct {
 	h     http.Handler
 	obs   *jwtObs
 	probe []string
+	built *panicInfo // handler.Authorize panicked while the middleware was constructed
 }
 
 func newJWTGate(cfg jwtCfg) *jwtGate {
@@ -284,12 +286,14 @@ func newJWTGate(cfg jwtCfg) *jwtGate {
 			}
 		}))
 	}
-	g.h = handler.Authorize(cfg.Secret, opts...)(http.HandlerFunc(func(w http.ResponseWriter, r *http.Request) {
-		g.obs.Ran++
-		for _, k := range g.probe {
-			g.obs.Ctx[k] = jsonOf(r.Context().Value(k))
-		}
-	}))
+	g.built = guard(func() {
+		g.h = handler.Authorize(cfg.Secret, opts...)(http.HandlerFunc(func(w http.ResponseWriter, r *http.Request) {
+			g.obs.Ran++
+			for _, k := range g.probe {
+				g.obs.Ctx[k] = jsonOf(r.Context().Value(k))
+			}
+		}))
+	})
 	return g
 }
 
@@ -297,8 +301,12 @@ func newJWTGate(cfg jwtCfg) *jwtGate {
 func (g *jwtGate) send(auth []string, probe []string) jwtObs {
 	g.obs = &jwtObs{Ctx: map[string]string{}}
 	g.probe = probe
+	if g.built != nil {
+		g.obs.Panic = g.built
+		return *g.obs
+	}
 	rec := httptest.NewRecorder()
-	g.h.ServeHTTP(rec, newAuthReq(auth))
+	g.obs.Panic = guard(func() { g.h.ServeHTTP(rec, newAuthReq(auth)) })
 	g.obs.Status = rec.Code
 	return *g.obs
 }
@@ -322,6 +330,7 @@ func runJWT(c jwtCase, probe []string) jwtObs {
 type pending struct {
 	Class, Desc string
 	Replay      any
+	Detail      string // e.g. the offending claim name
 }
 
 type replayCase struct {
@@ -332,13 +341,33 @@ type replayCase struct {
 	Seq    *seqCase    `json:"seq,omitempty"`
 	Hist   *histCase   `json:"hist,omitempty"`
 	Script *scriptCase `json:"script,omitempty"`
+	Engine *engCase    `json:"engine,omitempty"`
 }
 
+// claimUniverse: every non-standard claim name any token of the sequence / history families
+// carries (valid, forged or expired). All of them are probed after every accepted request: the
+// context must carry EXACTLY the accepted token's own non-standard claims.
+var claimUniverse = []string{"uid", "n", "role", "scope", "grp", "tenant", "dept", "warm", "lvl"}
+
 func jwtProbe(exp jwtExpect) []string {
-	probe := append([]string{"c18-never-set"}, stdClaimNames...)
+	seen := map[string]bool{}
+	probe := []string{}
+	add := func(k string) {
+		if !seen[k] {
+			seen[k] = true
+			probe = append(probe, k)
+		}
+	}
+	add("c18-never-set")
+	for _, k := range stdClaimNames {
+		add(k)
+	}
+	for _, k := range claimUniverse {
+		add(k)
+	}
 	for k := range exp.Claims {
 		if !isStdClaim(k) {
-			probe = append(probe, k)
+			add(k)
 		}
 	}
 	sort.Strings(probe)
@@ -360,6 +389,9 @@ func judgeJWT(c jwtCase, exp jwtExpect, obs jwtObs, family string) (*pending, jw
 		return &pending{Class: class, Desc: fmt.Sprintf("%s [%s; cfg prev=%v warm=%q cb=%v] expected %s(%s), observed ran=%d status=%d",
 			msg, c.Label, c.Cfg.Prev != "", c.Cfg.Warm, c.Cfg.Callback, verdictName(exp.Verdict), exp.Reason, obs.Ran, obs.Status),
 			Replay: replayCase{Family: family, JWT: &cc}}, exp, obs
+	}
+	if obs.Panic != nil {
+		return fail(obs.Panic.Class, "the Authorize middleware panicked: "+obs.Panic.Msg)
 	}
 	if obs.Ran > 1 {
 		return fail("jwt-handler-ran-twice", "handler called more than once")
@@ -402,6 +434,19 @@ func judgeJWT(c jwtCase, exp jwtExpect, obs jwtObs, family string) (*pending, jw
 	}
 	if obs.Ctx["c18-never-set"] != "" {
 		return fail("jwt-claim-mismatch", "context carries a key that is not a claim")
+	}
+	// ... and nothing else: no probed name that is not a claim of THIS token
+	var extra []string
+	for k, v := range obs.Ctx {
+		if _, own := exp.Claims[k]; !own && v != "" && !isStdClaim(k) && k != "c18-never-set" {
+			extra = append(extra, k)
+		}
+	}
+	if len(extra) > 0 {
+		sort.Strings(extra)
+		p, e, o := fail("jwt-context-extra-claim", fmt.Sprintf("context carries %q = %s, which is not a claim of the accepted token (%s)", extra[0], obs.Ctx[extra[0]], jsonOf(exp.Claims)))
+		p.Detail = extra[0]
+		return p, e, o
 	}
 	return nil, exp, obs
 }
